@@ -32,4 +32,13 @@ theorem rectangle_contains (r : Rect α) (i : Include) (p : Pt α) :
 
 end
 
+
+/-- which attributes each translated function reads (a rename such as `vertices` → `_vertices`
+keeps the arithmetic but changes this list). -/
+theorem reads_eq :
+    FormulasC01.circle_contains_reads = ["incl", "pixcoord_x", "pixcoord_y", "self_center_x", "self_center_y", "self_radius"] ∧
+    FormulasC01.ellipse_contains_reads = ["incl", "pixcoord_x", "pixcoord_y", "self_angle_c", "self_angle_s", "self_center_x", "self_center_y", "self_height", "self_width"] ∧
+    FormulasC01.rectangle_contains_reads = ["incl", "pixcoord_x", "pixcoord_y", "self_angle_c", "self_angle_s", "self_center_x", "self_center_y", "self_height", "self_width"] :=
+  ⟨rfl, rfl, rfl⟩
+
 end RegionsVerif.Bridge.C01
